@@ -1710,6 +1710,129 @@ theorem runView_sound (v : View) :
       ((show Sound _ (famChildren f) _ from nwt_sound f tCHIL).weaken fun a h => tag_lt (isFam_iff.mp h) tFAM_ne)
       fun l => Sound.pure _
 
+/-! ## reads whose answer is not modelled: they keep the invariant and the document -/
+
+def Pure {α : Type} (pre : Abs → Prop) (m : M α) : Prop :=
+  ∀ s, Inv s → pre (abs s) → Inv (m s).2 ∧ abs (m s).2 = abs s
+
+theorem Sound.toPure {α : Type} {pre : Abs → Prop} {m : M α} {g : Abs → α} (h : Sound pre m g) :
+    Pure pre m := fun s hi hp => ⟨(h s hi hp).1, (h s hi hp).2.1⟩
+
+theorem Pure.weaken {α : Type} {pre pre' : Abs → Prop} {m : M α} (h : Pure pre m)
+    (hp : ∀ a, pre' a → pre a) : Pure pre' m := fun s hi hp' => h s hi (hp _ hp')
+
+/-- the invariant supplies well-formedness of the document to the precondition -/
+theorem Pure.awf {α : Type} {pre : Abs → Prop} {m : M α} (h : Pure (fun a => AWF a ∧ pre a) m) :
+    Pure pre m := fun s hi hp => h s hi ⟨hi.1.awf, hp⟩
+
+theorem Pure.pure {α : Type} {pre : Abs → Prop} (x : α) : Pure pre (M.pure x) :=
+  fun _ hi _ => ⟨hi, rfl⟩
+
+theorem Pure.bind {α β : Type} {pre : Abs → Prop} {m : M α} {k : α → M β} {f : Abs → α}
+    (hm : Sound pre m f) (hk : ∀ x, Pure (fun a => pre a ∧ x = f a) (k x)) : Pure pre (M.bind m k) := by
+  intro s hi hp
+  obtain ⟨i1, a1, r1⟩ := hm s hi hp
+  obtain ⟨i2, a2⟩ := hk (m s).1 (m s).2 i1 ⟨a1 ▸ hp, a1 ▸ r1⟩
+  exact ⟨i2, a2.trans a1⟩
+
+/-- sequencing when the first read's answer is not needed -/
+theorem Pure.seq {α β : Type} {pre : Abs → Prop} {m : M α} {k : α → M β}
+    (hm : Pure pre m) (hk : ∀ x, Pure pre (k x)) : Pure pre (M.bind m k) := by
+  intro s hi hp
+  obtain ⟨i1, a1⟩ := hm s hi hp
+  obtain ⟨i2, a2⟩ := hk (m s).1 (m s).2 i1 (a1 ▸ hp)
+  exact ⟨i2, a2.trans a1⟩
+
+theorem Pure.mapM' {α β : Type} {pre : Abs → Prop} {k : α → M β} :
+    ∀ (l : List α), (∀ x ∈ l, Pure pre (k x)) → Pure pre (M.mapM' k l)
+  | [], _ => Pure.pure []
+  | x :: xs, h => by
+    unfold M.mapM'
+    exact Pure.seq (h x List.mem_cons_self) fun y =>
+      Pure.seq (Pure.mapM' xs fun z hz => h z (List.mem_cons_of_mem _ hz)) fun ys => Pure.pure _
+
+theorem eventDates_pure (n : Id) (t : Str) :
+    Pure (fun a => AWF a ∧ n < a.heap.length) (eventDates n t) := by
+  unfold eventDates
+  refine Pure.bind ((nwt_sound n t).weaken fun a h => h.2) fun es => ?_
+  refine Pure.seq (Pure.mapM' es fun e he => ?_) fun _ => Pure.pure ()
+  refine ((nwt_sound e tDATE).toPure).weaken fun a h => ?_
+  exact specNWT_lt h.1.1 (h.2 ▸ he)
+
+theorem birthOf_pure (i : Option Id) :
+    Pure (fun a => AWF a ∧ ∀ x, i = some x → x < a.heap.length) (birthOf i) := by
+  unfold birthOf
+  cases i with
+  | none => exact Pure.pure ()
+  | some x => exact (eventDates_pure x tBIRT).weaken fun a h => ⟨h.1, h.2 x rfl⟩
+
+theorem indiWarnReads_pure (i : Id) :
+    Pure (fun a => AWF a ∧ i < a.heap.length) (indiWarnReads i) := by
+  unfold indiWarnReads
+  exact Pure.seq (eventDates_pure i tBIRT) fun _ => Pure.seq (eventDates_pure i tBAPM) fun _ =>
+    Pure.seq (eventDates_pure i tBAPL) fun _ => Pure.seq (eventDates_pure i tDEAT) fun _ =>
+    Pure.seq (eventDates_pure i tBURI) fun _ =>
+    Pure.seq (((nwt_sound i tSEX).toPure).weaken fun a h => h.2) fun _ => Pure.pure ()
+
+theorem specIndividualOf_lt' {a : Abs} (w : AWF a) {h j : Id} (e : specIndividualOf a h = some j) :
+    j < a.heap.length := by
+  unfold specIndividualOf at e
+  split at e
+  · rename_i r hr
+    split at e
+    · have : r = j := by simpa using e
+      exact this ▸ w.roots r (specByPtr_mem hr)
+    · simp at e
+  · simp at e
+
+theorem spouseBirth_pure (isHusb : Bool) (f : Id) :
+    Pure (fun a => AWF a ∧ a.tag f = tFAM) (spouseBirth isHusb f) := by
+  unfold spouseBirth
+  refine Pure.bind ((spouseIndividual_sound isHusb f).weaken fun a h => h.2) fun i => ?_
+  refine (birthOf_pure i).weaken fun a h => ⟨h.1.1, fun x hx => ?_⟩
+  have e : some x = specSpouseIndividual a isHusb f := hx ▸ h.2
+  unfold specSpouseIndividual at e
+  generalize (if isHusb = true then specHusband a f else specWife a f) = o at e
+  cases o with
+  | none => simp at e
+  | some y => exact specIndividualOf_lt' h.1.1 e.symm
+
+theorem famWarnReads_pure (f : Id) :
+    Pure (fun a => AWF a ∧ a.tag f = tFAM) (famWarnReads f) := by
+  unfold famWarnReads
+  refine Pure.seq (spouseBirth_pure true f) fun _ => Pure.seq (spouseBirth_pure false f) fun _ => ?_
+  refine Pure.bind ((show Sound _ (famChildren f) _ from nwt_sound f tCHIL).weaken
+    fun a h => tag_lt h.2 tFAM_ne) fun cs => ?_
+  refine Pure.seq (Pure.mapM' cs fun c _ => ?_) fun _ =>
+    Pure.seq ((eventDates_pure f tMARR).weaken fun a h => ⟨h.1.1, tag_lt h.1.2 tFAM_ne⟩) fun _ => Pure.pure ()
+  refine Pure.bind (individualOf_sound c) fun i => ?_
+  refine (birthOf_pure i).weaken fun a h => ⟨h.1.1.1, fun x hx => ?_⟩
+  exact specIndividualOf_lt' h.1.1.1 (hx ▸ h.2).symm
+
+theorem rootWarnReads_pure (r : Id) :
+    Pure (fun a => AWF a ∧ r < a.heap.length) (rootWarnReads r) := by
+  unfold rootWarnReads
+  refine Pure.bind (Sound.ofAbs _) fun t => ?_
+  by_cases h1 : (t == tINDI) = true
+  · simp only [h1, if_true]
+    exact (indiWarnReads_pure r).weaken fun a h => h.1
+  · simp only [h1, Bool.false_eq_true, if_false]
+    by_cases h2 : (t == tFAM) = true
+    · simp only [h2, if_true]
+      refine (famWarnReads_pure r).weaken fun a h => ⟨h.1.1, ?_⟩
+      have : t = tFAM := by simpa using h2
+      rw [← this]; exact h.2.symm
+    · simp only [h2, Bool.false_eq_true, if_false]
+      exact Pure.pure ()
+
+/-- `Document.Warnings()` keeps every cache coherent and does not change the document -/
+theorem warningsRead_pure : Pure (fun _ => True) warningsRead := by
+  apply Pure.awf
+  unfold warningsRead
+  refine Pure.bind (Sound.ofAbs _) fun rs => ?_
+  refine Pure.seq (Pure.mapM' rs fun r hr => ?_) fun _ => Pure.pure ()
+  exact (rootWarnReads_pure r).weaken fun a h => ⟨h.1.1, h.1.1.roots r (h.2 ▸ hr)⟩
+
 theorem plainTag_ne_INDI {t : Str} (h : plainTag t = true) : t ≠ tINDI := by
   intro e; subst e; revert h; decide
 
@@ -1770,7 +1893,9 @@ theorem exec_inv {s : St} (hi : Inv s) (op : Op) (hok : op.ok (abs s) = true) :
     simp only [Op.ok, Bool.and_eq_true] at hok
     exact (addChild_good hi (isFam_iff.mp hok.1) (isIndi_lt hi.1 hok.2)).1
   | read v => exact (runView_sound v s hi hok).1
-  | warnings => exact hi
+  | warnings => exact (warningsRead_pure s hi trivial).1
+  | string => exact hi
+  | gedcomString n => exact hi
   | foreign => exact resetNodeCache_inv hi
   | inert => exact hi
 
